@@ -27,6 +27,11 @@ impl PartialEq for Ident {
     fn eq(&self, o: &Ident) -> bool { self.text() == o.text() }
 }
 impl Eq for Ident {}
+impl core::fmt::Display for Ident {
+    fn fmt(&self, f: &mut core::fmt::Formatter<'_>) -> core::fmt::Result {
+        f.write_str(unsafe { core::str::from_utf8_unchecked(self.text()) })
+    }
+}
 /// syn / proc_macro2: an identifier compares with anything string-like by its text
 impl<T: ?Sized + AsRef<str>> PartialEq<T> for Ident {
     fn eq(&self, o: &T) -> bool { self.text() == o.as_ref().as_bytes() }
